@@ -1,6 +1,7 @@
 package jsonapi
 
 import (
+	"bytes"
 	"encoding/json"
 	"sort"
 	"time"
@@ -417,55 +418,22 @@ func checkTime(op string, rval, cval time.Time) bool {
 }
 
 func checkBytes(op string, rval, cval []byte) bool {
+	// Byte strings are ordered lexicographically.
+	cmp := bytes.Compare(rval, cval)
+
 	switch op {
 	case "=":
-		for i := 0; i < len(rval) && i < len(cval); i++ {
-			if rval[i] != cval[i] {
-				return false
-			}
-		}
-
-		return len(rval) == len(cval)
+		return cmp == 0
 	case "!=":
-		for i := 0; i < len(rval) && i < len(cval); i++ {
-			if rval[i] != cval[i] {
-				return true
-			}
-		}
-
-		return len(rval) != len(cval)
+		return cmp != 0
 	case "<":
-		for i := 0; i < len(rval) && i < len(cval); i++ {
-			if rval[i] < cval[i] {
-				return true
-			}
-		}
-
-		return len(rval) < len(cval)
+		return cmp < 0
 	case "<=":
-		for i := 0; i < len(rval) && i < len(cval); i++ {
-			if rval[i] > cval[i] {
-				return false
-			}
-		}
-
-		return len(rval) <= len(cval)
+		return cmp <= 0
 	case ">":
-		for i := 0; i < len(rval) && i < len(cval); i++ {
-			if rval[i] > cval[i] {
-				return true
-			}
-		}
-
-		return len(rval) > len(cval)
+		return cmp > 0
 	case ">=":
-		for i := 0; i < len(rval) && i < len(cval); i++ {
-			if rval[i] < cval[i] {
-				return false
-			}
-		}
-
-		return len(rval) >= len(cval)
+		return cmp >= 0
 	default:
 		return false
 	}
